@@ -7,7 +7,10 @@ TIER=quick; SEEDS="1"; WALL=""; PROP=""
 while [ $# -gt 0 ]; do case "$1" in --tier) TIER=$2; shift 2;; --seeds) SEEDS=$2; shift 2;; --wall) WALL="--wall $2"; shift 2;; --prop) PROP=$2; shift 2;; *) break;; esac; done
 IDS="$@"; [ -z "$IDS" ] && IDS=$(ls seeded | grep -E '^(C1[01]|M1[01]|E1[01])-')
 if [ -n "$(git -C /repo status --porcelain)" ]; then echo "seeded.sh: /repo is not clean, refusing"; exit 2; fi
-trap 'git -C /repo checkout -q -- . 2>/dev/null' EXIT
+# the checks rewrite evidence/<id>.json on every run: keep the files that were
+# written on the unchanged tree and put them back when done
+EVBAK=$(mktemp -d /var/tmp/verif-evidence-XXXXXX); cp evidence/*.json $EVBAK/ 2>/dev/null
+trap 'git -C /repo checkout -q -- . 2>/dev/null; cp $EVBAK/*.json /verif/evidence/ 2>/dev/null; rm -rf $EVBAK' EXIT
 mkdir -p seeded/results
 for id in $IDS; do
   prop=$(jq -r .property seeded/$id/meta.json); [ -n "$PROP" ] && prop=$PROP
